@@ -41,6 +41,9 @@ def run(ctx):
     channel_per_batch(ctx, facts)
     index_arith(ctx, facts)
     callers(ctx, facts)
+    from rules import C15, malsec
+    C15.chain(ctx, facts)              # validated_seq_join: each record it yields has requested validation with its own index
+    malsec.dzkp_validate_path(ctx, facts, "PATH-verdict")   # "the batch's check has run": the verdict is the proof's verdict
     ctx.assume("tokio::sync::watch delivers the last value sent before a successful changed(); std::sync::Mutex serialises callers")
 
 
